@@ -202,8 +202,10 @@ func c09Check(run *Run, h *c09History, r *rand.Rand) {
 			}
 			if !same {
 				known := ""
-				if faultSub != "" && strings.HasPrefix(os.name, "multi") && !fedJSONEqual(got.Data, base.Data) && c07Nulled(base.Data, got.Data) {
-					// the merged fetch failed as a whole but its dependents ran (known finding): the plain engine nulls more
+				if faultSub != "" && strings.HasPrefix(os.name, "multi") && !fedJSONEqual(got.Data, base.Data) && (c07Nulled(base.Data, got.Data) || c07Nulled(got.Data, base.Data)) {
+					// a merged request shares the fate of all of its parts (known finding): either the merged fetch failed as a
+					// whole but its dependents ran (the plain engine nulls more), or it is skipped as a whole because one part
+					// depends on a failed fetch (the multi-fetch engine nulls more)
 					known = "C09-multifetch-runs-dependents-after-failed-merged-fetch"
 				}
 				run.Violate(Violation{Kind: "oracle", Clause: "transparent:" + os.name, Input: in, Impl: got.Raw, Model: base.Raw,
